@@ -469,6 +469,21 @@ def trace_oracle(prog, acts, trace, known):
     for c in cancelled_reported:
         if c not in expect:
             return "cancellation names order %d, which the program never issued" % c
+    # an order the program cancelled before any suspension could hand it over is withdrawn: it never reaches the host
+    creators = [(j, e) for j, e in enumerate(prog) if e[0] in ("O", "I", "G")]
+    nid2 = 1
+    born = {}
+    for j, e in creators:
+        if e[0] in ("O", "I"):
+            born[nid2] = (j, e[0])
+        nid2 += 1
+    for b, e in enumerate(prog):
+        if e[0] == "C" and e[1] in born and born[e[1]][0] < b and born[e[1]][1] == "I":
+            a = born[e[1]][0]
+            if not any(x[0] in ("O", "M") for x in prog[a + 1:b]):
+                if any(i == e[1] for i, _ in reported):
+                    return ("order %d was handed to the host although the program had cancelled it before the first suspension "
+                            "(the cancellation is reported nowhere: %r)" % (e[1], cancelled_reported))
     # no lost wake-up: everything ever handed over has been answered, the host keeps stepping, and the
     # interpreter still reports Suspended with nothing to do (programs awaiting an order they cancelled excluded)
     cancelled_by_prog = {e[1] for e in prog if e[0] == "C"}
